@@ -7,7 +7,8 @@ TEXT = {
                  "store); (T2) in every reachable state of the manager model - any history of any number of peers, every shuffle outcome - a piece that is "
                  "not owned and is offered by a connected peer is never stuck: a Reserved piece has a live, unchoked peer that was really asked for it and "
                  "whose completion lowers the number of missing pieces; a Missing piece is answered with a request when the offering peer unchokes, and "
-                 "completing that lowers the number; (T3) no event raises the number of missing pieces, which is 0 exactly when all are owned. "
+                 "completing that lowers the number; (T3) no event raises the number of missing pieces, which is 0 exactly when all are owned; "
+                 "(T4) in every reachable state extraction has been started iff every piece is owned. "
                  "Not proved: that the real tasks take these steps (fairness, sockets, timers) - observed by end-to-end runs of the real Session.",
         "note": KERNEL + "the liveness half is a possibility-of-progress theorem about the manager model plus monotonicity, not a fairness proof of the tokio "
                 "runtime; the handler-level block exchange is covered by C10/C01/C06 separately; e2e runs: 14 per quick check, 700 in the thorough tier; the manager model under T2/T3 is tied by manager event histories (25 per e2e run).",
